@@ -48,7 +48,7 @@ var plainKeys = []string{"a", "b", "c", "id", "k", "ab", "bc"}
 
 // caseKeys differ from plain keys only in letter case.
 var caseKeys = []string{"A", "B", "ID", "Id", "K"}
-var nastyKeys = []string{"~1", "a~1b", "x~01", "~01", "1e2", "1.5", "2.0", "0e0", ".5", "0x10", "inf", "NaN", "1_0", "", "a/b", "m~n", "\u00e9", "1", "01", "-", "+1", "~0", "a b", "/", "~", "0", "-1", "12345678901234567890", "\"q\"", " "}
+var nastyKeys = []string{"a b", " a", "x y", "%41", "100%25", "a%2Fb", "q%20r", "\u0001k", "\u007f", "\U000e0001", "~1", "a~1b", "x~01", "~01", "1e2", "1.5", "2.0", "0e0", ".5", "0x10", "inf", "NaN", "1_0", "", "a/b", "m~n", "\u00e9", "1", "01", "-", "+1", "~0", "a b", "/", "~", "0", "-1", "12345678901234567890", "\"q\"", " "}
 var plainStrings = []string{"", "a", "b", "1", "true"}
 
 // PayloadStrings are strings that stress text formats.
@@ -836,7 +836,6 @@ func DeepPair(t *rapid.T, a, b V, p Profile) (V, V) {
 	return a, b
 }
 
-
 // SwapValues exchanges the values of two keys in some of the objects of v.
 func SwapValues(t *rapid.T, v V, pct int) V {
 	switch x := v.(type) {
@@ -863,4 +862,56 @@ func SwapValues(t *rapid.T, v V, pct int) V {
 		return out
 	}
 	return v
+}
+
+// PathTwins plants, in object documents a and b, a nested member k1 -> k2 and
+// a sibling member whose single key spells k1<sep>k2, and makes both change
+// between a and b: two paths that read alike when flattened to text.
+func PathTwins(t *rapid.T, a, b V, p Profile) (V, V) {
+	ao, ok1 := a.(map[string]V)
+	bo, ok2 := b.(map[string]V)
+	if !ok1 || !ok2 {
+		return a, b
+	}
+	k1 := Pick(t, "twinK1", []string{"a", "x", "", "k", "0", "a b"})
+	k2 := Pick(t, "twinK2", []string{"b", "y z", "", "1", "a"})
+	sep := Pick(t, "twinSep", []string{" ", " ", "/", "~1", ".", ",", "\",\"", "\" \"", ""})
+	flat := k1 + sep + k2
+	if flat == k1 {
+		return a, b
+	}
+	change := func(name string) (V, V) {
+		switch Int(t, name, 0, 3) {
+		case 0:
+			return val.Void, Scalar(t, p) // added
+		case 1:
+			return Scalar(t, p), val.Void // removed
+		default:
+			x := Scalar(t, p)
+			y, ok := NearScalar(t, x)
+			if !ok {
+				y = 7.0
+			}
+			return x, y
+		}
+	}
+	n1, n2 := change("twinNested")
+	f1, f2 := change("twinFlat")
+	put := func(o map[string]V, nested, flatV V) {
+		inner := map[string]V{}
+		if Chance(t, "twinFiller", 40) {
+			inner["z"] = 1.0
+		}
+		if _, void := nested.(val.VoidT); !void {
+			inner[k2] = nested
+		}
+		o[k1] = inner
+		delete(o, flat)
+		if _, void := flatV.(val.VoidT); !void {
+			o[flat] = flatV
+		}
+	}
+	put(ao, n1, f1)
+	put(bo, n2, f2)
+	return ao, bo
 }
